@@ -256,6 +256,7 @@ package propertyf
 //@   sites ).Read = 2
 //@   site ).Skip#0 assert [C04] $1 == 0 && $2 == true
 //@   sites ).Skip = 1
+//@   site ).Read#1 assert [C04] $0 == addr(st.VInfo[i0])
 //@   safety [C05]
 //
 //@ func (*StatPropMsgBody).ReadBlock
